@@ -393,7 +393,7 @@ fn tracked_geometry(size: usize) -> (usize, usize, usize) {
 fn new_tracked<BS: BitmapSlice>(rid: u32, flavour: &'static str, mk: impl Fn(&'static AtomicBitmap, usize) -> BS) -> Cont<BS> {
     let plain = new_arena_cont(rid);
     let (ps, base_off, cover) = tracked_geometry(plain.size);
-    let bitmap = Arc::new(AtomicBitmap::new(cover, std::num::NonZeroUsize::new(ps).unwrap()));
+    let bitmap = Arc::new(crate::world::grown_bitmap(cover, ps));
     // SAFETY: the Arc is kept in the container's Track for the whole run.
     let bref: &'static AtomicBitmap = unsafe { &*Arc::as_ptr(&bitmap) };
     // SAFETY: arena memory outlives the container.
@@ -404,7 +404,7 @@ fn new_tracked<BS: BitmapSlice>(rid: u32, flavour: &'static str, mk: impl Fn(&'s
 fn new_tracked_arc(rid: u32) -> Cont<ArcSlice<AtomicBitmap>> {
     let plain = new_arena_cont(rid);
     let (ps, base_off, cover) = tracked_geometry(plain.size);
-    let bitmap = Arc::new(AtomicBitmap::new(cover, std::num::NonZeroUsize::new(ps).unwrap()));
+    let bitmap = Arc::new(crate::world::grown_bitmap(cover, ps));
     // SAFETY: arena memory outlives the container.
     let base = unsafe { VolatileSlice::with_bitmap(plain.ptr, plain.size, ArcSlice::new(bitmap.clone(), base_off), None) };
     Cont { ptr: plain.ptr, size: plain.size, rid, model: plain.model, arena: plain.arena, region: None, base, track: Some(Track { bitmap, base_off, ps, flavour: "ArcSlice" }) }
@@ -452,8 +452,8 @@ fn run_mem<BS: BitmapSlice>(mk: impl Fn(u32) -> Cont<BS>, tracked: bool) -> RunI
             }
             let ci = cx().a(conts.len() as u32) as usize;
             let spec = gen_view(conts[ci].size);
-            let mut kind = cx().a(27);
-            if kind >= 25 && conts[ci].region.is_none() {
+            let mut kind = cx().a(29);
+            if (25..=26).contains(&kind) && conts[ci].region.is_none() {
                 kind = cx().a(25);
             }
             if tracked && kind == 20 {
@@ -991,6 +991,133 @@ impl Mem {
                     cx().violate("C04", "C04/data", format!("{} data", j.kind), format!("step {} {}: wrong bytes", step, j.desc));
                 }
                 tally!(got);
+            }
+            // ---- derivation requests around the end of the accessor and of the address space ------------
+            27 | 28 => {
+                j.kind = "derive-probe";
+                let sz_t = TYPE_SIZES[cx().a(20) as usize];
+                let ti = TYPE_SIZES.iter().position(|&x| x == sz_t).unwrap();
+                let sz = TYPE_SIZES[ti];
+                let on_region = conts[ci].region.is_some() && cx().a(2) == 0;
+                // the accessor probed: the derived view, or the region container itself
+                let (plen, pbase) = if on_region { (conts[ci].size, conts[ci].ptr as usize) } else { (vlen, conts[ci].ptr as usize + voff) };
+                let edge = |l: usize| -> usize {
+                    let c = cx();
+                    match c.a(12) {
+                        0 => 0,
+                        1 => l,
+                        2 => l.saturating_sub(1),
+                        3 => l + 1,
+                        4 => usize::MAX,
+                        5 => usize::MAX - c.a(40) as usize,
+                        6 => usize::MAX - l,
+                        7 => (usize::MAX - l).wrapping_add(1 + c.a(3) as usize),
+                        8 => 1usize << 63,
+                        9 => (1usize << 63) + c.a(l as u32 + 1) as usize,
+                        _ => c.a(l as u32 + 1) as usize,
+                    }
+                };
+                let o = edge(plen);
+                let n = match cx().a(8) {
+                    0 => edge(plen.saturating_sub(o.min(plen))),
+                    1 => usize::MAX / sz,
+                    2 => (usize::MAX / sz).saturating_add(1),
+                    3 => ((usize::MAX - o) / sz).saturating_add(1),
+                    4 => plen.saturating_sub(o.min(plen)) / sz,
+                    5 => plen.saturating_sub(o.min(plen)) / sz + 1,
+                    _ => edge(plen),
+                };
+                let form = cx().a(if on_region { 5 } else { 7 });
+                let fname = ["get_slice", "get_ref", "get_array_ref", "get_atomic_ref::<AtomicU32>", "GuestMemoryRegion::get_slice/get_host_address", "subslice", "offset/split_at"][if on_region { form as usize } else { [0, 1, 2, 3, 5, 6, 6][form as usize] }];
+                j.desc = format!("{} {}({}, {}) with {}-byte elements on a {}-byte accessor", if on_region { "region" } else { "view" }, fname, o, n, sz, plen);
+                // (bytes requested starting at o) per form; None = overflow of the request itself
+                #[derive(Debug)]
+                enum Got {
+                    Acc(usize, usize),
+                    Two((usize, usize), (usize, usize)),
+                    Err(Obs),
+                }
+                fn acc<B2: BitmapSlice>(s: &VolatileSlice<'_, B2>) -> Got {
+                    Got::Acc(s.ptr_guard().as_ptr() as usize, s.len())
+                }
+                let reg = conts[ci].region.as_ref();
+                // building an atomic reference dereferences the stored address: allowed inside only
+                let allow: Vec<(usize, usize)> = if o.checked_add(4).map(|e| e <= plen).unwrap_or(false) { vec![(cbase + if on_region { 0 } else { voff } + o, cbase + if on_region { 0 } else { voff } + o + 4)] } else { vec![] };
+                let (want_bytes, got): (Option<usize>, OpOutcome<Got>) = with_allowed(rid, &allow, || {
+                    if on_region {
+                        let r = reg.unwrap();
+                        use vm_memory::{GuestMemoryRegion, MemoryRegionAddress as MRA};
+                        let tr = |s: Result<VolatileSlice<'_, ()>, VErr>| match s {
+                            Ok(s) => Got::Acc(s.ptr_guard().as_ptr() as usize, s.len()),
+                            Err(e) => Got::Err(obs_err(&e)),
+                        };
+                        match form {
+                            0 => (Some(n), catch(|| tr(VolatileMemory::get_slice(&**r, o, n)))),
+                            1 => (Some(sz), catch(|| with_type!(ti, T => match VolatileMemory::get_ref::<T>(&**r, o) { Ok(x) => Got::Acc(x.ptr_guard().as_ptr() as usize, x.len()), Err(e) => Got::Err(obs_err(&e)) }))),
+                            2 => (n.checked_mul(sz), catch(|| with_type!(ti, T => match VolatileMemory::get_array_ref::<T>(&**r, o, n) { Ok(x) => Got::Acc(x.ptr_guard().as_ptr() as usize, x.len() * sz), Err(e) => Got::Err(obs_err(&e)) }))),
+                            3 => (Some(4), catch(|| match VolatileMemory::get_atomic_ref::<std::sync::atomic::AtomicU32>(&**r, o) { Ok(x) => Got::Acc(x as *const _ as usize, 4), Err(e) => Got::Err(obs_err(&e)) })),
+                            _ => (
+                                Some(n),
+                                catch(|| match GuestMemoryRegion::get_slice(r, MRA(o as u64), n) {
+                                    Ok(s) => match r.get_host_address(MRA(o as u64)) {
+                                        Ok(h) if n > 0 && h as usize != s.ptr_guard().as_ptr() as usize => Got::Err(Obs::Panic("get_host_address and get_slice disagree".into())),
+                                        _ => Got::Acc(s.ptr_guard().as_ptr() as usize, s.len()),
+                                    },
+                                    Err(_) => Got::Err(Obs::Oob),
+                                }),
+                            ),
+                        }
+                    } else {
+                        match form {
+                            0 => (Some(n), catch(|| match view.get_slice(o, n) { Ok(s) => acc(&s), Err(e) => Got::Err(obs_err(&e)) })),
+                            1 => (Some(sz), catch(|| with_type!(ti, T => match view.get_ref::<T>(o) { Ok(x) => Got::Acc(x.ptr_guard().as_ptr() as usize, x.len()), Err(e) => Got::Err(obs_err(&e)) }))),
+                            2 => (n.checked_mul(sz), catch(|| with_type!(ti, T => match view.get_array_ref::<T>(o, n) { Ok(x) => Got::Acc(x.ptr_guard().as_ptr() as usize, x.len() * sz), Err(e) => Got::Err(obs_err(&e)) }))),
+                            3 => (Some(4), catch(|| match view.get_atomic_ref::<std::sync::atomic::AtomicU32>(o) { Ok(x) => Got::Acc(x as *const _ as usize, 4), Err(e) => Got::Err(obs_err(&e)) })),
+                            4 => (Some(n), catch(|| match view.subslice(o, n) { Ok(s) => acc(&s), Err(e) => Got::Err(obs_err(&e)) })),
+                            5 => (Some(0), catch(|| match view.offset(o) { Ok(s) => Got::Two((s.ptr_guard().as_ptr() as usize, s.len()), (pbase, o)), Err(e) => Got::Err(obs_err(&e)) })),
+                            _ => (Some(0), catch(|| match view.split_at(o) { Ok((a, b)) => Got::Two((b.ptr_guard().as_ptr() as usize, b.len()), (a.ptr_guard().as_ptr() as usize, a.len())), Err(e) => Got::Err(obs_err(&e)) })),
+                        }
+                    }
+                });
+                let two = !on_region && form >= 5;
+                let atomic = form == 3;
+                // the request is inside the accessor iff o + bytes <= plen without overflow
+                let inside = want_bytes.and_then(|b| o.checked_add(b)).map(|e| e <= plen).unwrap_or(false);
+                match got {
+                    OpOutcome::Ok(Got::Acc(p, l)) => {
+                        if !inside {
+                            cx().violate("C04", "C04/derive", format!("{} outside accepted", fname), format!("step {} {}: accepted; the accessor handed out covers {} byte(s) at {:+} relative to the start of the {}-byte accessor", step, j.desc, l, p.wrapping_sub(pbase) as isize, plen));
+                        } else if p != pbase + o || l != want_bytes.unwrap() {
+                            cx().violate("C04", "C04/derive", format!("{} position", fname), format!("step {} {}: handed out {} byte(s) at offset {}", step, j.desc, l, p.wrapping_sub(pbase)));
+                        } else if atomic && (pbase + o) % 4 != 0 {
+                            cx().violate("C04", "C04/derive", format!("{} misaligned accepted", fname), format!("step {} {}: address {:#x} is not 4-byte aligned", step, j.desc, pbase + o));
+                        } else {
+                            *ok_ops += 1;
+                        }
+                    }
+                    OpOutcome::Ok(Got::Two((p2, l2), (p1, l1))) => {
+                        // offset(o) = [o, len); split_at(o) = [0, o) + [o, len)
+                        if o > plen {
+                            cx().violate("C04", "C04/derive", format!("{} outside accepted", fname), format!("step {} {}: accepted", step, j.desc));
+                        } else if p2 != pbase + o || l2 != plen - o || p1 != pbase || l1 != o {
+                            cx().violate("C04", "C04/derive", format!("{} position", fname), format!("step {} {}: parts ({}, {}) and ({}, {})", step, j.desc, p1.wrapping_sub(pbase), l1, p2.wrapping_sub(pbase), l2));
+                        } else {
+                            *ok_ops += 1;
+                        }
+                    }
+                    OpOutcome::Ok(Got::Err(Obs::Panic(m))) => cx().violate("C04", "C04/derive", format!("{} inconsistent", fname), format!("step {} {}: {}", step, j.desc, m)),
+                    OpOutcome::Ok(Got::Err(e)) => {
+                        let legit_misaligned = atomic && e == Obs::Misaligned && (pbase.wrapping_add(o)) % 4 != 0;
+                        let should_accept = if two { o <= plen } else { inside };
+                        if should_accept && !legit_misaligned {
+                            cx().violate("C04", "C04/derive", format!("{} inside refused", fname), format!("step {} {}: refused with {:?}", step, j.desc, e));
+                        } else {
+                            *rejected += 1;
+                        }
+                    }
+                    OpOutcome::Panic(m) => cx().violate("C04", "C04/panic", format!("{} panic", fname), format!("step {} {}: panicked: {}", step, j.desc, m)),
+                    OpOutcome::Sim(sp) => cx().violate("C04", "C04/panic", format!("{} aborted", fname), format!("step {} {}: {:?}", step, j.desc, sp)),
+                }
             }
             // ---- pointer guards (C17, standard build) -------------------------------------------------
             24 => {
